@@ -456,6 +456,14 @@ def translate_jobstate(repo):
 JOBUTIL_KNOWN = {}
 
 
+def translate_trigger(repo):
+    """scheduler/trigger/core.py: Weekday classes and the weekday() factory"""
+    import py2v_trigger as T
+    path = os.path.join(repo, "scheduler/trigger/core.py")
+    CURFILE[0] = path
+    return HEADER % path + T.translate(ast.parse(open(path).read()))
+
+
 def translate_supervisor(repo):
     """asyncio Scheduler.__supervise_job, cut at its suspension points"""
     import py2v_aio as A
@@ -632,7 +640,7 @@ def main():
     sys.path.insert(0, os.path.dirname(os.path.abspath(__file__)))
     for fname, fn in (("GenTimer.v", translate_timer), ("GenJobState.v", translate_jobstate),
                       ("GenJobUtil.v", translate_jobutil), ("GenSelect.v", translate_select),
-                      ("GenJobInit.v", translate_jobinit), ("GenSched.v", translate_sched), ("GenOnce.v", translate_once), ("GenRegistry.v", translate_registry), ("GenPost.v", translate_postloop), ("GenSupervisor.v", translate_supervisor)):
+                      ("GenJobInit.v", translate_jobinit), ("GenSched.v", translate_sched), ("GenOnce.v", translate_once), ("GenRegistry.v", translate_registry), ("GenPost.v", translate_postloop), ("GenSupervisor.v", translate_supervisor), ("GenTrigger.v", translate_trigger)):
         try:
             text = fn(repo)
             with open(os.path.join(outdir, fname), "w") as fh:
